@@ -67,3 +67,10 @@ Theorem C01_translated_search_step :
     search_stmt src ssp dl dsp get.
 Proof. exact search_exec. Qed.
 Print Assumptions C01_translated_search_step.
+
+(* with C11_translated_contract (PropC11.v): a positive result of the TRANSLATED fast compressor decodes, under
+   the block specification, to exactly the source — the round trip for the code as translated on this run. *)
+From LZ4V Require Import GenCompressBodyMain GenCompressBodyCorollaries.
+Theorem C01_translated_fast_roundtrip : translated_contract_stmt.
+Proof. exact translated_contract. Qed.
+Print Assumptions C01_translated_fast_roundtrip.
